@@ -109,6 +109,25 @@ theorem oversize_rejected (p : Parser) (reads : List Bytes) (hne : ∀ r ∈ rea
     listenWaiting p [] reads = .error := by
   exact listen_oversize p reads.flatten hpar hl reads hne [] (by simp) headCap_pos
 
+/-- **End of stream before a complete head is a graceful end**: if the client goes away while the
+head is still incomplete (any strict prefix of a valid head, the empty one included, in any
+segmentation), the call ends with `closed` - not with an error, and never with a request made of a
+partial head -/
+theorem eof_before_complete_head_closes (p : Parser) (hp : PrefixConsistent p) (head : Bytes)
+    (hh : p.parse head = .complete head.length) (hl : head.length ≤ headCap)
+    (reads : List Bytes) (hne : ∀ r ∈ reads, r ≠ []) (n : Nat) (hn : n < head.length)
+    (hs : reads.flatten = head.take n) (post : List Bytes) :
+    listenWaiting p [] (reads ++ [] :: post) = .closed := by
+  rw [listen_append_of_starved p reads _ [] _ (incomplete_head_waits p hp head hh hl reads hne n hn hs)]
+  simp [listenWaiting]
+
+/-- and a head that arrives in two bursts with a pause in between (reads exhausted, then more) is
+recognised exactly as if it had arrived without the pause -/
+theorem head_across_a_pause (p : Parser) (reads more : List Bytes) (b : Bytes)
+    (h : listenWaiting p [] reads = .starved b) :
+    listenWaiting p [] (reads ++ more) = listenWaiting p b more :=
+  listen_append_of_starved p reads more [] b h
+
 /-- **Well-formed responses**: an independent reader recovers the status line and every header
 line from `encode_response`, and the head ends exactly at the empty line -/
 theorem response_wellformed (minor : Nat) (code reason : Bytes) (headers : List (Bytes × Bytes))
